@@ -13,7 +13,7 @@
      - opInstantiate with NO runtime `#init`: the instance replaces the class below the arguments and
        nothing is popped.
    Executable definitions only; proofs are in Proofs/C28_Arity.v. *)
-From Coq Require Import String List Bool Arith.
+From Coq Require Import List Bool Arith NArith.
 Import ListNotations.
 
 Inductive rkind := RNative | RBytecode | RGetter | RSetter | ROther | RNone.
@@ -29,7 +29,9 @@ Record rt := mkRt { r_found : bool; r_kind : rkind; r_pc : nat; r_opc : nat }.
 
 (* the declared return / throw types of the row stay in the harness table (TSV); they are only used by the
    sampled conformance stream c28.calls, not by any theorem *)
-Record row := mkRow { row_key : string; row_decl : decl; row_rt : rt }.
+(* row_key: the row's index in the regenerated table (its readable key `own:Std::Regex#*` is in the comment
+   next to it in Gen/C28_Headers.v and in the harness table) *)
+Record row := mkRow { row_key : N; row_decl : decl; row_rt : rt }.
 
 Definition b2n (b : bool) : nat := if b then 1 else 0.
 
@@ -103,18 +105,14 @@ Definition compatible (d : decl) (r : rt) : bool :=
   else d_abstract d || negb (d_concrete d). (* nothing to call on: `sig`s and namespaces without instances *)
 
 (* the table check: every row is compatible or listed as a known exception *)
-Definition row_ok (exceptions : list string) (x : row) : bool :=
-  compatible (row_decl x) (row_rt x) || existsb (String.eqb (row_key x)) exceptions.
+Definition row_ok (exceptions : list N) (x : row) : bool :=
+  compatible (row_decl x) (row_rt x) || existsb (N.eqb (row_key x)) exceptions.
 
-Definition all_compatible (exceptions : list string) (rows : list row) : bool :=
+Definition all_compatible (exceptions : list N) (rows : list row) : bool :=
   forallb (row_ok exceptions) rows.
 
-Definition incompatible_keys (rows : list row) : list string :=
+Definition incompatible_keys (rows : list row) : list N :=
   map row_key (filter (fun x => negb (compatible (row_decl x) (row_rt x))) rows).
-
-(* exceptions must be exact: every listed key is an incompatible row (no stale or blanket entries) *)
-Definition exceptions_exact (exceptions : list string) (rows : list row) : bool :=
-  forallb (fun k => existsb (String.eqb k) (incompatible_keys rows)) exceptions.
 
 (* what a well-formed native call looks like *)
 Definition expected_args (d : decl) (r : rt) (argc : nat) : list slot :=
